@@ -83,9 +83,55 @@ def ringCounts (n : Nat) (ring : Array (Option Nat)) : Array Nat :=
 
 def hasFixed (o : RouteObs) : Bool := o.fixed.any (fun f => decide (0 < f))
 
+/-! ### sentence 1 of the property as a reference computation, and `route weight` spreading
+
+Both are evaluated on what the implementation reports (requested weight `FixedWeight`, effective weight
+`Weight`, service and tags of every target), independently of `Model.Route.weigh` / `Route.setWeight`. -/
+
+/-- "fixed weights are honoured as given (scaled down proportionally if they exceed 100 %, scaled up if every
+target is fixed and they sum to less), and the remaining targets share the remainder equally" -/
+def sentenceOne (fixed : List Rat) : List Rat :=
+  let n := fixed.length
+  let fx := fixed.filter (fun f => decide (0 < f))
+  let S := sumR fx
+  let nd := n - fx.length
+  if fx.length = 0 then fixed.map (fun _ => 1 / (n : Rat))
+  else fixed.map (fun f =>
+    if 0 < f then (if 1 < S ∨ (nd = 0 ∧ S < 1) then f / S else f)
+    else (if 1 < S then 0 else (1 - S) / (nd : Rat)))
+
+def ruleFollowed (o : RouteObs) : Bool :=
+  let want := sentenceOne o.fixed
+  want.length == o.weight.length && (want.zip o.weight).all (fun (a, b) => decide (absR (a - b) ≤ eps40))
+
+def relCloseQ (a b : Rat) : Bool :=
+  let m := if absR a < absR b then absR b else absR a
+  absR (a - b) ≤ eps40 * (if m < 1 then 1 else m)
+
+/-- one `route weight` command aimed at the route under inspection -/
+structure WCmd where
+  service : Str
+  tags : List Str
+  w : Rat
+
+def matchesCmd (c : WCmd) (service : Str) (tags : List Str) : Bool :=
+  (c.service.isEmpty || service == c.service) && c.tags.all (fun t => tags.contains t)
+
+/-- After a block of `route weight` commands on a route (no add/del between or after them) the requested
+weight of a target is `w / k` of the *last* command that matches it, `k` = number of targets that command
+matches: the share `w` goes to all matching targets combined. `targets` = (service, tags, FixedWeight). -/
+def spreadHonoured (targets : List (Str × List Str × Rat)) (cmds : List WCmd) : Bool :=
+  targets.all (fun t =>
+    match cmds.reverse.find? (fun c => matchesCmd c t.1 t.2.1) with
+    | none => true
+    | some c =>
+      let k := (targets.filter (fun u => matchesCmd c u.1 u.2.1)).length
+      relCloseQ t.2.2 (c.w / (k : Rat)))
+
 /-- The property's specification on one route, as a list of the clauses that fail (empty = holds):
 weights non-negative; sum to one (within the float64 tolerance `n·2⁻⁴⁰`); ring valid: non-empty for a
 non-empty route, no nil slot, every slot a target of the route; per target |count − 10⁴·w| < 1 + 10⁻⁶;
+the effective weights are the ones sentence 1 prescribes for the requested weights (within 2⁻⁴⁰);
 zero weight ⇒ absent; positive weight ⇒ present; without fixed weights the ring is the target list itself
 (every target exactly once per cycle: share 1/n exactly). -/
 def specFailures (o : RouteObs) : List String :=
@@ -111,7 +157,8 @@ def specFailures (o : RouteObs) : List String :=
       let starved := idx.any (fun i => decide (0 < o.weight.getD i 0) && counts.getD i 0 == 0)
       (if off then ["count-off"] else []) ++ (if zero then ["zero-weight-on-ring"] else []) ++
       (if starved then ["positive-weight-starved"] else [])
-  f1 ++ f2 ++ f3 ++ f4 ++ f5 ++ f6
+  let f7 := if ruleFollowed o then [] else ["weights-not-as-configured"]
+  f1 ++ f2 ++ f7 ++ f3 ++ f4 ++ f5 ++ f6
 
 /-! ### Go's placement order recovered from a ring
 
